@@ -247,6 +247,10 @@ type C14ShadowEntry struct {
 	NExt   int         `json:"n_ext,omitempty"` // stored extension blocks
 	Val    model.Bytes `json:"val,omitempty"`
 	InMain string      `json:"in_main"` // same | other | absent
+	// Bad: the stored value is NOT a well-formed version-0 value: "version" (another header version), "short"
+	// (1..23 bytes), "ext" (announces more extension blocks than there are bytes). Must be refused, not misread.
+	Bad  string `json:"bad,omitempty"`
+	BadN int    `json:"bad_n,omitempty"`
 }
 
 type C14ShadowCase struct {
@@ -277,6 +281,17 @@ func checkC14Shadow(c C14ShadowCase, o *vcore.Obs) error {
 				val = []byte("v") // (live empty values in shadow mode: listed known finding, not this check's business)
 			}
 			raw := model.BuildHeader(uint64(1_600_000_000_000_000_000+i), 1, byte(e.Flags), make([]byte, 8*e.NExt), val)
+			switch e.Bad {
+			case "version":
+				raw[16] = byte(1 + e.BadN%255)
+			case "short":
+				raw = raw[:1+e.BadN%23]
+			case "ext":
+				// the count promises 1..4 blocks more than the bytes present (the value is cut inside the blocks)
+				have := (len(raw) - 24) / 8
+				n := have + 1 + e.BadN%4
+				raw[22], raw[23] = byte(n>>8), byte(n)
+			}
 			if err := txn.Put(sh, e.Key, raw, 0); err != nil {
 				return err
 			}
@@ -309,12 +324,33 @@ func checkC14Shadow(c C14ShadowCase, o *vcore.Obs) error {
 		passTxn = uint64(txn.ID())
 		return s.VerifMainToShadow(context.Background(), txn, 1_700_000_000_000_000_000)
 	})
+	nBad := 0
+	if d := before.DBI("_sync_shadow_d"); d != nil {
+		for _, e := range d.Entries {
+			if _, herr := model.ReadHeader(e.Val); herr != nil {
+				nBad++
+			}
+		}
+	}
+	after, derr := lm.DumpEnv(env.Env)
+	if derr != nil {
+		return derr
+	}
+	if nBad > 0 {
+		// every shadow entry is looked at by the pass (merged with the application's entry or cleaned): a stored
+		// value that is too short or of another header version must make the pass fail, with nothing written
+		o.Class("stored-value-malformed")
+		o.NonTrivial(true)
+		if err == nil {
+			return fmt.Errorf("the capture pass succeeded although %d stored shadow value(s) are too short / of another header version (misread instead of rejected)", nBad)
+		}
+		if d := before.Diff(after); d != "" {
+			return fmt.Errorf("capture pass failed (%v) but the LMDB changed: %s", err, d)
+		}
+		return nil
+	}
 	if err != nil {
 		return fmt.Errorf("mainToShadow: %v", err)
-	}
-	after, err := lm.DumpEnv(env.Env)
-	if err != nil {
-		return err
 	}
 	old := map[string][]byte{}
 	if d := before.DBI("_sync_shadow_d"); d != nil {
@@ -355,6 +391,11 @@ func TestC14Shadow(t *testing.T) {
 					NExt:   rapid.SampledFrom([]int{0, 0, 1, 3}).Draw(t, "next"),
 					Val:    rapid.SampledFrom([]model.Bytes{[]byte("v1"), []byte("v2"), {}}).Draw(t, "val"),
 					InMain: rapid.SampledFrom([]string{"same", "other", "absent", "absent"}).Draw(t, "in_main")})
+			}
+			if rapid.IntRange(0, 3).Draw(t, "bad?") == 0 {
+				e := &c.Entries[rapid.IntRange(0, len(c.Entries)-1).Draw(t, "bad_i")]
+				e.Bad = rapid.SampledFrom([]string{"version", "short", "ext"}).Draw(t, "bad")
+				e.BadN = rapid.IntRange(0, 300).Draw(t, "bad_n")
 			}
 			return c
 		}, checkC14Shadow)
